@@ -5,6 +5,7 @@ import (
 	"encoding/json"
 	"errors"
 	"fmt"
+	"sort"
 	"strconv"
 
 	"github.com/go-openapi/jsonpointer"
@@ -223,6 +224,20 @@ func (operation *Operation) Validate(ctx context.Context, opts ...ValidationOpti
 	if v := operation.Servers; v != nil {
 		if err := v.Validate(ctx); err != nil {
 			return fmt.Errorf("invalid servers: %w", err)
+		}
+	}
+
+	callbacks := make([]string, 0, len(operation.Callbacks))
+	for name := range operation.Callbacks {
+		callbacks = append(callbacks, name)
+	}
+	sort.Strings(callbacks)
+	for _, name := range callbacks {
+		// callbacks given by reference are validated where they are defined (and may refer back here)
+		if v := operation.Callbacks[name]; v != nil && v.Ref == "" {
+			if err := v.Validate(ctx); err != nil {
+				return fmt.Errorf("invalid callback %s: %w", name, err)
+			}
 		}
 	}
 
